@@ -380,8 +380,92 @@ func c40Run(arg string) explore.HistFn {
 	}
 }
 
+// E3 scenario "c40race" (arg "<publisher>:<qos>[:old]"): Server.Subscribe("x/#", 1, h) runs
+// concurrently with ONE retained publish "new" on x/y (by client b or by Server.Publish);
+// with ":old" a retained message on x/z is stored beforehand, so that the replay has
+// something to hand over. Whatever the order, the handler must be given "new" at least
+// once: as a live message if the subscription came first, as a retained replay if the
+// publish came first - there is no serial order in which it is lost. A probe published
+// after quiescence must reach the handler exactly once. (Order between the replay of
+// "old" and a live "new" is not judged: they are different topics.)
+func c40Race(arg string) explore.RunFn {
+	f := strings.Split(arg, ":")
+	who, qos := f[0], byte(f[1][0]-'0')
+	return func(prefix []int) explore.Outcome {
+		w := world.New(prefix, world.Config{Opts: func(o *mqtt.Options) { o.InlineClient = true }})
+		defer w.End()
+		b := w.Connect(world.ConnectPacket("b", 4, true))
+		if len(f) > 2 {
+			old := pub("x/z", "old", 1, 1)
+			old.Retain = true
+			b.Do(old)
+			b.Poll()
+		}
+		var got []string
+		handler := func(cl *mqtt.Client, sub packets.Subscription, pk packets.Packet) {
+			got = append(got, fmt.Sprintf("%s=%s(ret=%v)", pk.TopicName, pk.Payload, pk.FixedHeader.Retain))
+		}
+		var subErr, pubErr error
+		w.Spawn("api-subscribe", func() { subErr = w.S.Subscribe("x/#", 1, handler) })
+		if who == "inline" {
+			w.Spawn("api-publish", func() { pubErr = w.S.Publish("x/y", []byte("new"), true, qos) })
+		} else {
+			nw := pub("x/y", "new", qos, 2)
+			nw.Retain = true
+			b.Send(nw)
+		}
+		w.Explore(true)
+		w.Run()
+		w.Explore(false)
+		b.Poll()
+		o := explore.Outcome{Points: w.X.Points, Divergence: w.X.Divergence(), Steps: w.X.Steps(), Counters: map[string]int{}}
+		o.Viol = runtimeViolations(w)
+		if subErr != nil || pubErr != nil {
+			o.Viol = append(o.Viol, explore.Violation{Key: "c40:race:api-error", Msg: fmt.Sprintf("Subscribe: %v, Publish: %v", subErr, pubErr)})
+		}
+		n, live, replay := 0, 0, 0
+		for _, g := range got {
+			if strings.HasPrefix(g, "x/y=new") {
+				n++
+				if strings.HasSuffix(g, "(ret=true)") {
+					replay++
+				} else {
+					live++
+				}
+			}
+		}
+		switch {
+		case n == 0:
+			o.Viol = append(o.Viol, explore.Violation{Key: "c40:race:retained-publish-concurrent-with-subscribe-never-delivered", Msg: fmt.Sprintf("Server.Subscribe(x/#) concurrent with a retained publish on x/y (%s): the handler got neither the live message nor its retained replay: %v", arg, got)})
+		case n == 1:
+			o.Counters["race_new_delivered_once"]++
+		default:
+			o.Counters["race_new_delivered_live_and_replayed"]++
+		}
+		if len(f) > 2 {
+			olds := 0
+			for _, g := range got {
+				if strings.HasPrefix(g, "x/z=old") {
+					olds++
+				}
+			}
+			if olds != 1 {
+				o.Viol = append(o.Viol, explore.Violation{Key: "c40:race:stored-retained-not-replayed-once", Msg: fmt.Sprintf("retained x/z=old stored before Subscribe was handed over %d times: %v", olds, got)})
+			}
+		}
+		base := len(got)
+		b.Do(pub("x/y", "probe", 0, 0))
+		if len(got)-base != 1 {
+			o.Viol = append(o.Viol, explore.Violation{Key: "c40:race:probe-after-quiescence", Msg: fmt.Sprintf("probe published after Subscribe returned was delivered %d times: %v", len(got)-base, got[base:])})
+		}
+		o.Obs = strings.Join(got, " ")
+		return o
+	}
+}
+
 func init() {
 	explore.RegisterBFS("c40", c40Run)
+	explore.RegisterDFS("c40race", c40Race)
 	explore.Register("C40", func(c *explore.Ctx) {
 		c.Rep.Level = "model_checking"
 		c.Rep.Assumption("one API call or client packet at a time, broker run to quiescence under the deterministic default schedule; API calls run as a broker thread")
@@ -394,6 +478,14 @@ func init() {
 		if !c.Quick() {
 			scen = []sc{{"i2n1p1s1c1", 4 * time.Minute}, {"i3n1p2s0c1", 3 * time.Minute}, {"i1n1p1s2c0,full", 3 * time.Minute}}
 		}
+		bounds := []explore.Bounds{{Preempt: 0}, {Preempt: 1}, {Preempt: 2}}
+		if !c.Quick() {
+			bounds = append(bounds, explore.Bounds{Preempt: 3})
+		}
+		for _, ra := range []string{"client:0", "client:1:old", "inline:0:old", "inline:1"} {
+			explore.IterateDFS(c, "c40race", ra, bounds, 10*time.Second)
+		}
+		c.Rep.Assumption("c40race: Server.Subscribe concurrent with one retained publish, all interleavings up to the delay bound; only 'delivered at least once' and 'stored retained replayed exactly once' are judged, not the relative order of replay and live delivery")
 		tot := map[string]int64{}
 		for _, s := range scen {
 			if c.Expired() {
